@@ -1192,8 +1192,6 @@ class CSSMatch(_DocumentNav):
             if not found_form:
                 checked = False
                 for child in self.get_tag_descendants(form, no_iframe=True):
-                    if child is el:
-                        continue
                     tag_name = self.get_tag(child)
                     if tag_name == 'input':
                         is_radio = False
